@@ -137,3 +137,64 @@ Theorem function_result_first r rows v : function_result ((v :: r) :: rows) = v.
 Proof. reflexivity. Qed.
 Theorem function_result_none : function_result [] = None.
 Proof. reflexivity. Qed.
+
+(* ---- sh:union / sh:intersection / sh:filterShape node expressions ---- *)
+Lemma Forall2_in_l {A B} (R:A -> B -> Prop) l l' x : Forall2 R l l' -> In x l -> exists y, In y l' /\ R x y.
+Proof.
+  intros F. induction F as [|a b l l' Hab _ IH]; intros Hx; [destruct Hx|].
+  destruct Hx as [<-|Hx]; [exists b; split; [left; reflexivity|exact Hab]|].
+  destruct (IH Hx) as (y & Hy & Hr). exists y. split; [right; exact Hy|exact Hr].
+Qed.
+Lemma Forall2_in_r {A B} (R:A -> B -> Prop) l l' y : Forall2 R l l' -> In y l' -> exists x, In x l /\ R x y.
+Proof.
+  intros F. induction F as [|a b l l' Hab _ IH]; intros Hy; [destruct Hy|].
+  destruct Hy as [<-|Hy]; [exists a; split; [left; reflexivity|exact Hab]|].
+  destruct (IH Hy) as (x & Hx & Hr). exists x. split; [right; exact Hx|exact Hr].
+Qed.
+
+(* a union has a value exactly when one of its members has it *)
+Theorem eval_union_spec fuel T g es a vals :
+  eval_nexpr (S fuel) T g (NUnion es) a = Ok vals ->
+  NoDup vals /\ forall x, In x vals <-> exists e vs, In e es /\ eval_nexpr fuel T g e a = Ok vs /\ In x vs.
+Proof.
+  cbn [eval_nexpr]. destruct (mapM (fun x => eval_nexpr fuel T g x a) es) as [sets|er] eqn:E; cbn [bind]; [|discriminate].
+  intros [= <-]. split; [apply (NoDup_dedup term_eqb_spec)|]. intros x.
+  rewrite (In_dedup term_eqb_spec), in_concat. apply mapM_ok in E. split.
+  - intros (s & Hs & Hx). destruct (Forall2_in_r _ _ _ _ E Hs) as (e & He & Hev). exists e, s. auto.
+  - intros (e & vs & He & Hev & Hx). destruct (Forall2_in_l _ _ _ _ E He) as (s & Hs & Hev'). rewrite Hev in Hev'.
+    injection Hev' as <-. exists vs. auto.
+Qed.
+
+(* an intersection (of at least one member) has a value exactly when every member has it *)
+Theorem eval_inter_spec fuel T g e0 es a vals :
+  eval_nexpr (S fuel) T g (NInter (e0 :: es)) a = Ok vals ->
+  NoDup vals /\ forall x, In x vals <-> forall e, In e (e0 :: es) -> exists vs, eval_nexpr fuel T g e a = Ok vs /\ In x vs.
+Proof.
+  cbn [eval_nexpr]. destruct (mapM (fun x => eval_nexpr fuel T g x a) (e0 :: es)) as [sets|er] eqn:E; cbn [bind]; [|discriminate].
+  apply mapM_ok in E. inversion E as [|? s0 ? rest H0 Hrest]; subst. intros [= <-].
+  split; [apply (NoDup_dedup term_eqb_spec)|]. intros x.
+  rewrite (In_dedup term_eqb_spec), filter_In, forallb_forall. split.
+  - intros (Hx0 & Hall) e [<-|He]; [exists s0; auto|].
+    destruct (Forall2_in_l _ _ _ _ Hrest He) as (s & Hs & Hev). exists s. split; [exact Hev|].
+    apply (mem_In term_eqb_spec). apply Hall. exact Hs.
+  - intros H. split.
+    + destruct (H e0 (or_introl eq_refl)) as (vs & Hev & Hx). rewrite H0 in Hev. injection Hev as <-. exact Hx.
+    + intros s Hs. destruct (Forall2_in_r _ _ _ _ Hrest Hs) as (e & He & Hev).
+      destruct (H e (or_intror He)) as (vs & Hev' & Hx). rewrite Hev in Hev'. injection Hev' as <-.
+      apply (mem_In term_eqb_spec). exact Hx.
+Qed.
+Theorem eval_inter_empty fuel T g a : eval_nexpr (S fuel) T g (NInter []) a = Ok [].
+Proof. reflexivity. Qed.
+
+(* sh:filterShape keeps exactly the values of sh:nodes that conform to the shape (conformance: oracle row k [n]) *)
+Theorem eval_filter_spec fuel T g k e a vals :
+  eval_nexpr (S fuel) T g (NFilter k e) a = Ok vals ->
+  exists vs, eval_nexpr fuel T g e a = Ok vs /\ NoDup vals /\
+    forall x, In x vals <-> In x vs /\ exists r, fn_lookup T k [x] = Some (Some r).
+Proof.
+  cbn [eval_nexpr]. destruct (eval_nexpr fuel T g e a) as [vs|er]; cbn [bind]; [|discriminate].
+  intros [= <-]. exists vs. split; [reflexivity|]. split; [apply (NoDup_dedup term_eqb_spec)|]. intros x.
+  rewrite (In_dedup term_eqb_spec), filter_In. split; intros (Hx & Hc); (split; [exact Hx|]).
+  - destruct (fn_lookup T k [x]) as [[r|]|]; try discriminate. exists r. reflexivity.
+  - destruct Hc as (r & ->). reflexivity.
+Qed.
